@@ -9,6 +9,7 @@ REQUIRED = [P + n for n in """f32_bits_roundtrip f64_bits_roundtrip f16_decode_e
 accessor_widening_value no_narrowing no_half_feature f16_encode_exact f16_encode_nan_payload f16_wire_roundtrip
 f16_encode_nan_inf f16_encode_rne""".split()]
 PACKAGES = ["hcore", "hserde"]
+DEBUG_TWINS = True
 RULE = ("Per-op streams (dec f16|f32|f64 <item>, enc f16|f32|f64 <bits>), judged by an oracle computed in the orchestrator "
         "(CPython struct 'e'/'f'/'d' codecs: exact half decode, exact widening, round-to-nearest-even half packing) and compared with the model: "
         "all 65 536 half patterns through the three accessors (items f9xxxx) and back through enc f16 of their f32 image; f32 patterns stratified over "
